@@ -50,13 +50,18 @@ Section Lockset.
     match a with
     | Acq t m => own s m = None /\ shr s m = []
     | Rel t m => own s m = Some t
-    | AcqS t m => own s m = None /\ ~ In t (shr s m)
+    | AcqS t m => own s m = None        (* a thread may hold the shared lock several times (several handles) *)
     | RelS t m => In t (shr s m)
     | Rd t x => own s (prot x) = Some t \/ In t (shr s (prot x))
     | Wr t x => own s (prot x) = Some t
     end.
 
-  Definition rm (t : nat) (l : list nat) := filter (fun u => negb (Nat.eqb u t)) l.
+  (* remove ONE occurrence: the sharers are a multiset *)
+  Fixpoint rm (t : nat) (l : list nat) : list nat :=
+    match l with
+    | [] => []
+    | u :: r => if Nat.eqb u t then r else u :: rm t r
+    end.
 
   Definition step (s : st) (a : act) : st :=
     match a with
@@ -93,11 +98,13 @@ Section Lockset.
              (forall u, ~ In u (shr s (prot x)) -> rv s x u <= lck s (prot x) u)
   }.
 
-  Lemma In_rm t u l : In u (rm t l) <-> In u l /\ u <> t.
+  Lemma In_rm_in t u l : In u (rm t l) -> In u l.
   Proof.
-    unfold rm. rewrite filter_In. split; intros [H1 H2]; split; auto.
-    - intros ->. rewrite Nat.eqb_refl in H2. discriminate.
-    - apply negb_true_iff, Nat.eqb_neq. auto.
+    induction l as [|h r IH]; cbn; [tauto|]. destruct (Nat.eqb_spec h t); cbn; intuition.
+  Qed.
+  Lemma In_rm_ne t u l : u <> t -> In u l -> In u (rm t l).
+  Proof.
+    intros Hne. induction l as [|h r IH]; cbn; [tauto|]. destruct (Nat.eqb_spec h t); cbn; intros [->|H]; intuition congruence.
   Qed.
 
   Ltac eqd a b := destruct (Nat.eqb_spec a b); subst.
@@ -137,7 +144,7 @@ Section Lockset.
           -- intros u _. pt u; lia.
         * destruct (Hfr x H) as (A & B & C). repeat split; auto.
           intros h Hh. specialize (B h Hh). eqd h t; auto. intros i; pt i; destruct (Nat.eqb i t); lia.
-    - (* AcqS *) destruct Hok as [Hfree Hnin]. split; [|intros []]. constructor; cbn; unfold fupd.
+    - (* AcqS *) rename Hok into Hfree. split; [|intros []]. constructor; cbn; unfold fupd.
       + intros m' w H. eqd m' m; [congruence|]. eapply Hwf; eauto.
       + intros x u. eqd u t; [|apply Hself]. specialize (Hself x t). unfold vjoin. lia.
       + intros x w H. destruct (Hex x w H) as [A B]. eqd w t; auto.
@@ -160,12 +167,12 @@ Section Lockset.
       + intros x H. destruct (Hfr x H) as (A & B & C). eqd (prot x) m.
         * repeat split.
           -- intros i; pt i; lia.
-          -- intros h Hh. apply In_rm in Hh. destruct Hh as [Hh Hne]. specialize (B h Hh).
-             eqd h t; [congruence|auto].
+          -- intros h Hh. apply In_rm_in in Hh. specialize (B h Hh).
+             eqd h t; auto. intros i; pt i; destruct (Nat.eqb i t); lia.
           -- intros u Hu. unfold vjoin.
              destruct (Nat.eq_dec u t) as [->|Hne].
              ++ specialize (Hself x t). lia.
-             ++ assert (~ In u (shr s (prot x))) as Hn by (intros Hin; apply Hu; apply In_rm; auto).
+             ++ assert (~ In u (shr s (prot x))) as Hn by (intros Hin; apply Hu; apply In_rm_ne; auto).
                 specialize (C u Hn). lia.
         * repeat split; auto.
           intros h Hh. specialize (B h Hh). eqd h t; auto. intros i; pt i; destruct (Nat.eqb i t); lia.
